@@ -157,6 +157,20 @@ def check_producer(fn):
         if isinstance(node, ast.Call) and isinstance(node.func, ast.Attribute) and node.func.attr in ('get', 'task_done', 'join', 'start'):
             if isinstance(node.func.value, ast.Name) and node.func.value.id == 'queue':
                 raise PipelineGenError(f'{fn.name}: {src(node)}')
+    # no queue operation on ANY other object either (a producer that is handed a second queue, or reaches one through a
+    # global, could write past the compressor): the only queue method a producer calls is queue.put
+    for node in ast.walk(fn):
+        if isinstance(node, ast.Call) and isinstance(node.func, ast.Attribute) and \
+                node.func.attr in ('put', 'put_nowait', 'get', 'get_nowait', 'task_done', 'join'):
+            if not (node.func.attr == 'put' and isinstance(node.func.value, ast.Name) and node.func.value.id == 'queue'):
+                # str.join and os.path.join are not queue operations: they take an argument; queue.join() takes none
+                if node.func.attr == 'join' and (node.args or node.keywords):
+                    continue
+                if node.func.attr == 'get' and (node.args or node.keywords) and not (isinstance(node.func.value, ast.Name) and 'queue' in node.func.value.id.lower()):
+                    continue        # dict.get(key[, default])
+                raise PipelineGenError(f'{fn.name}: queue operation on another object: {src(node)}')
+    for a_ in params(fn)[1:]:
+        expect('queue' not in a_.lower(), f'{fn.name}: a second queue parameter `{a_}`')
     return nput
 
 
@@ -252,6 +266,9 @@ def main_ops(fn, tree):
                        f'run_conversion_loop: producer is not given one of the queues: {src(c)}')
                 fed.add(queues[c.args[0].id])
                 called.append(c.func.id)
+                for other in list(c.args[1:]) + [k_.value for k_ in c.keywords]:
+                    expect(not (isinstance(other, ast.Name) and other.id in queues),
+                           f'run_conversion_loop: a producer is handed a second queue: {src(c)}')
             expect(len(fed) == 1, 'run_conversion_loop: producers feed different queues')
             expect(sorted(called) == sorted(PRODUCERS), f'run_conversion_loop: producers called: {called}')
             expect(not any(o[0] == 'Produce' for o in ops), 'run_conversion_loop: two producer dispatches')
